@@ -62,7 +62,7 @@ theorem dataCore_eq (x : Bits) : dataCore x = realize symData x := by
 
 theorem encodeCore_length (mapping : List (Nat × Nat)) (m : Bits) :
     (encodeCore mapping m).length = 196 := by
-  rw [encodeCore, scatter_length]; simp
+  rw [encodeCore, scatter_length]; exact zeros_length 196
 
 /-! ### decidable facts about the position lists -/
 
@@ -74,6 +74,7 @@ def dataSym (sym : List (Option Nat)) : Bool :=
 
 def chkDeintBelow : Bool := symBelow 196 symDeint
 def chkCellSome : Bool := symCell == (symCell.map (fun o => o.getD 0)).map some
+def chkCellLen : Bool := symCell.length == 195
 def chkCellNodup : Bool := decide (symCell.map (fun o => o.getD 0)).Nodup
 def chkRoundTrip : Bool :=
   symComp symCell symEncOut == [none, none, none] ++ (List.range' 3 192).map some
@@ -97,6 +98,7 @@ structure TablesOk : Prop where
   idx : idxOk = true
   deintBelow : chkDeintBelow = true
   cellSome : chkCellSome = true
+  cellLen : chkCellLen = true
   cellNodup : chkCellNodup = true
   roundTrip : chkRoundTrip = true
   fillHead : chkFillHead = true
@@ -160,7 +162,7 @@ theorem cell_encode (ok : TablesOk) (m : Bits) :
     rw [this]; rfl
   rw [encodeCore_eq, realize_realize, hrt]
   conv => rhs; rw [← gather_range (product (fillCore infoMap m)), hX,
-    show List.range 195 = [0, 1, 2] ++ List.range' 3 192 from by decide]
+    show List.range 195 = [0, 1, 2] ++ List.range' 3 192 from by decide +kernel]
   rw [gather_append, ← realize_some (List.range' 3 192)]
   simp only [realize, List.map_append, List.map_cons, List.map_nil, look, gather]
   rw [hzero 0 (by omega), hzero 1 (by omega), hzero 2 (by omega)]
@@ -196,9 +198,10 @@ theorem data_encode (ok : TablesOk) (m : Bits) (hm : m.length = 96) :
   exact data_of_product ok m hm
 
 theorem repairTable_product (ok : TablesOk) (F : Bits) : repairTable (product F) = product F := by
-  have h := repairTable_xor ok.idx (product F) (zeros 195) (isProduct_product ok F) (by simp)
+  have h := repairTable_xor ok.idx (product F) (zeros 195) (isProduct_product ok F) (zeros_length 195)
   rw [xorBits_zeros_right' _ _ (product_length F),
-    repairTable_le2 ok.idx ok.h15 ok.h13 ok.c15 ok.c13 (zeros 195) (by simp) (by simp [weight_zeros]),
+    repairTable_le2 ok.idx ok.h15 ok.h13 ok.c15 ok.c13 (zeros 195) (zeros_length 195)
+      (by rw [weight_zeros]; omega),
     xorBits_zeros_right' _ _ (product_length F)] at h
   exact h
 
@@ -231,11 +234,12 @@ theorem data_repair_le2 (ok : TablesOk) (m e : Bits) (hm : m.length = 96) (he : 
     (hw : weight e ≤ 2) :
     dataCore (repairCore (xorBits (encodeCore infoMap m) e)) = m := by
   have hc : (encodeCore infoMap m).length = 196 := encodeCore_length _ _
-  have hce : (xorBits (encodeCore infoMap m) e).length = 196 := by simp [hc, he]
+  have hce : (xorBits (encodeCore infoMap m) e).length = 196 := by
+    rw [xorBits_length, hc, he]; exact Nat.min_self 196
   have hE : (realize symCell e).length = 195 := by
-    have h1 := ok.cellSome
-    simp only [chkCellSome, beq_iff_eq] at h1
-    rw [realize_length]; rfl
+    have h1 := ok.cellLen
+    simp only [chkCellLen, beq_iff_eq] at h1
+    rw [realize_length]; exact h1
   rw [repairCore_eq ok _ hce, realize_xor _ _ _ (by rw [hc, he]), cell_encode ok,
     repairTable_xor ok.idx _ _ (isProduct_product ok _) hE,
     repairTable_le2 ok.idx ok.h15 ok.h13 ok.c15 ok.c13 _ hE
